@@ -56,7 +56,7 @@ def run(ctx):
             ctx.undischarged.append("harness layout crashed: " + out_l[-300:])
         total_ops += lst.get("ops", 0)
         hist["foreign-layouts-with-stale-free-space:histories"] = lst.get("histories", 0)
-        for msg in [m for m in lorc if "c0c1c2c3c4c5c6c7" in m or "b7b7b7b7b7b7b7b7" in m][:2]:
+        for msg in [m for m in lorc if "STALE-FREE-SPACE" in m][:2]:
             m = re.search(r"(/\S+?\.cfb)", msg)
             keep = None
             if m and os.path.exists(m.group(1)):
